@@ -35,11 +35,18 @@ func scratchDir() string {
 	return filepath.Join(c, "verif-scratch", fmt.Sprintf("x-%d", os.Getpid()))
 }
 
-func newSandbox() (*sandbox, error) {
+// newSandbox lays out {scanroot, cwd, tmp} side by side; with tmpAbove the scanned tree and the
+// working directory live BELOW the temporary directory (a tree unpacked under $TMPDIR and
+// scanned there), so that anything that treats "is under the temp dir" as "is my temporary
+// copy" shows.
+func newSandbox(tmpAbove bool) (*sandbox, error) {
 	sandboxSeq++
 	d := filepath.Join(scratchDir(), fmt.Sprintf("sb%d", sandboxSeq))
 	os.RemoveAll(d)
 	s := &sandbox{Dir: d, Root: filepath.Join(d, "scanroot"), Cwd: filepath.Join(d, "cwd"), Tmp: filepath.Join(d, "tmp")}
+	if tmpAbove {
+		s.Root, s.Cwd = filepath.Join(s.Tmp, "scanroot"), filepath.Join(s.Tmp, "cwd")
+	}
 	for _, p := range []string{s.Root, s.Cwd, s.Tmp} {
 		if err := os.MkdirAll(p, 0o755); err != nil {
 			return nil, err
